@@ -804,3 +804,69 @@ func (fc *FC) blockOfLit(typeName string) *ssa.BasicBlock {
 	}
 	return blk
 }
+
+// elemOf: the unique element atom base[i] read inside the loop system
+// reachable from rv; returns the element and its index.
+func (fc *FC) elemOf(rv *RF, base *RF) (x, i *RF) {
+	var found *Atom
+	for _, ph := range fc.loopPhis(rv) {
+		_, nx := fc.Recurrence(ph)
+		for _, at := range FindFn(nx, "idx") {
+			if at.Args[0].Equal(base) {
+				if found != nil && found.ID != at.ID {
+					anchorFail("several different elements of the same slice are read per iteration")
+				}
+				found = at
+			}
+		}
+	}
+	if found == nil {
+		anchorFail("no element of %s is read in the loop", clip(base.String(), 80))
+	}
+	return fc.X.S.atomRF(found.ID), found.Args[1]
+}
+
+// CheckSwap: a sort.Interface Swap over several parallel slices exchanges
+// the same (i,j) in each slice field of the receiver.
+func (b *B) CheckSwap(rule, fnName string) {
+	fn := b.Fn(rule, fnName)
+	if fn == nil {
+		return
+	}
+	b.guard(rule, fnName, func() {
+		fc := b.X.FCFor(fn)
+		env := b.X.EnvFor(fn, "p", "i", "j")
+		fields := structFieldsOf(fn, 0)
+		n := 0
+		for _, f := range fields {
+			F := env.MustParse("p." + f)
+			got := map[string]bool{}
+			fc.Ctx.Instrs(func(in ssa.Instruction) {
+				st, ok := in.(*ssa.Store)
+				if !ok {
+					return
+				}
+				ia, ok := st.Addr.(*ssa.IndexAddr)
+				if !ok || !fc.Val(ia.X).Equal(F) {
+					return
+				}
+				idx, val := fc.Val(ia.Index), fc.Val(st.Val)
+				switch {
+				case idx.Equal(env.MustParse("i")) && val.Equal(env.MustParse("p."+f+"[j]")):
+					got["i<-j"] = true
+				case idx.Equal(env.MustParse("j")) && val.Equal(env.MustParse("p."+f+"[i]")):
+					got["j<-i"] = true
+				default:
+					got["other"] = true
+				}
+			})
+			n++
+			if got["i<-j"] && got["j<-i"] && !got["other"] {
+				b.R.OK(rule, fnName+"/"+f, b.pos(fn), "exchanges elements i and j of "+f)
+			} else {
+				b.R.Fail(rule, fnName+"/"+f, b.pos(fn), "Swap does not exchange elements i and j of the parallel slice "+f+" (values would be detached from their partners)")
+			}
+		}
+		b.R.Floor(rule, "parallel slices swapped by "+fnName, n, 2)
+	})
+}
